@@ -40,6 +40,7 @@ def main():
     mir, repo = sys.argv[1], sys.argv[2]
     outp = sys.argv[sys.argv.index("--json") + 1] if "--json" in sys.argv else None
     only = sys.argv[sys.argv.index("--only") + 1] if "--only" in sys.argv else None
+    deep = "--deep" in sys.argv
     t0 = time.time()
     fns, consts = parse_mir(open(mir).read())
     stats = {"scenarios": 0, "paths": 0, "proved": 0, "queries": 0, "solver_s": 0.0, "functions": set()}
@@ -646,6 +647,27 @@ def main():
             run(dict(sd, body="x\\ny"), is_bytes, mk([120, BS, 110, 121]), [], [(True, ("value", [120, 10, 121]))])
             # the other quote kind, verbatim and escaped
             run(dict(sd, body="other quote verbatim"), is_bytes, mk([other]), [], [(True, ("value", [other]))])
+            if deep:
+                # thorough tier: three-unit bodies - an escape directly followed by characters that could be mistaken
+                # for more digits, two escapes in a row, symbolic characters around an escape
+                d0, d1, d2 = C[0], C[1], C[2]
+                hv = hexval(d0) * 16 + hexval(d1)
+                run(dict(sd, body="\\xHH followed by a hex digit"), is_bytes, mk([BS, 120, d0, d1, d2]), [hexdigit(d0), hexdigit(d1), hexdigit(d2)],
+                    [(True, ("value", [hv, d2]))] if is_bytes else [(c, ("value", l)) for c, l in value_units(False, [("char", hv), ("char", d2)])])
+                ov = (d0 - 48) * 64 + (d1 - 48) * 8 + (d2 - 48)
+                run(dict(sd, body="\\OOO followed by an octal digit"), is_bytes, mk([BS, d0, d1, d2, C[3]]), [d0 >= 48, d0 <= 51, octdigit(d1), octdigit(d2), octdigit(C[3])],
+                    [(True, ("value", [ov, C[3]]))])
+                run(dict(sd, body="two escapes in a row"), is_bytes, mk([BS, 110, BS, 116]), [], [(True, ("value", [10, 9]))])
+                run(dict(sd, body="backslash escape then n"), is_bytes, mk([BS, BS, 110]), [], [(True, ("value", [BS, 110]))])
+                cons3 = plain_ok(d0, quote, raw) + plain_ok(d2, quote, raw) + [d0 < 0x80, d2 < 0x80]
+                run(dict(sd, body="character, \\t, character"), is_bytes, mk([d0, BS, 116, d2]), cons3, [(True, ("value", [d0, 9, d2]))])
+                if not is_bytes:
+                    uv = 0
+                    for d in C[:4]:
+                        uv = uv * 16 + hexval(d)
+                    valid = z3.Or(uv < 0xD800, uv > 0xDFFF)
+                    run(dict(sd, body="\\uHHHH followed by a hex digit"), is_bytes, mk([BS, 117] + C[:4] + [C[4]]), [hexdigit(d) for d in C[:5]],
+                        [(valid, ("value", [uv, C[4]])), (z3.Not(valid), ("error",))])
     except Unsupported as u:
         status = 2
         print("INCONCLUSIVE: unsupported: %s" % u)
